@@ -19,6 +19,8 @@
 #include <shark/Models/Kernels/GaussianRbfKernel.h>
 #include <shark/Models/Kernels/LinearKernel.h>
 #include <shark/Models/Kernels/PolynomialKernel.h>
+#include <shark/Models/LinearModel.h>
+#include <shark/Core/Random.h>
 #include <shark/Algorithms/QP/QpMcSimplexDecomp.h>
 #include <shark/Algorithms/QP/QpMcBoxDecomp.h>
 #include <shark/Algorithms/QP/QpMcLinear.h>
@@ -175,7 +177,8 @@ static std::string doTrain(std::vector<std::string> const& t){
 			for(std::size_t c = 0; c != f.size(); ++c) os << (o + c ? "," : "") << g17(f(c));
 		}
 	}
-	if(prop.type != QpAccuracyReached && type != McSvm::OVA) orc << " !oracle solver-did-not-reach-accuracy";
+	// (BiasSolver never sets prop.type; OVA resets it to QpNone)
+	if(prop.type != QpAccuracyReached && type != McSvm::OVA && !(bias && classes > 2)) orc << " !oracle solver-did-not-reach-accuracy";
 
 	RealMatrix const& A = svm.decisionFunction().alpha();
 	if(classes == 2){
@@ -289,6 +292,49 @@ static std::string doTrain(std::vector<std::string> const& t){
 	return os.str() + orc.str();
 }
 
+
+// ltrain F bias C eps perm batch seed : the dedicated linear solvers (QpBoxLinear / QpMcLinear*) via LinearCSvmTrainer
+static std::string doLinearTrain(std::vector<std::string> const& t){
+	if(t.size() != 8 || W.n == 0) return "bad-op";
+	bool ok; McSvm type = parseType(t[1], ok); if(!ok) return "bad-op";
+	bool bias = t[2] == "1";
+	double C = std::stod(t[3]), eps = std::stod(t[4]);
+	std::uint64_t permMode = std::stoull(t[5]);
+	std::size_t batch = std::stoul(t[6]);
+	unsigned seed = (unsigned)std::stoul(t[7]);
+	std::ostringstream os, orc;
+	std::vector<std::size_t> perm = makePerm(W.n, permMode);
+	std::vector<RealVector> xs(W.n); std::vector<unsigned int> ys(W.n);
+	for(std::size_t i = 0; i != W.n; ++i){ xs[i] = W.x[perm[i]]; ys[i] = W.y[perm[i]]; }
+	ClassificationDataset data = createLabeledDataFromRange(xs, ys, batch);
+	std::size_t classes = numberOfClasses(data);
+	random::globalRng.seed(seed);
+	LinearCSvmTrainer<RealVector> trainer(C, bias);
+	trainer.setMcSvmType(type);
+	trainer.stoppingCondition().minAccuracy = eps;
+	trainer.stoppingCondition().maxIterations = 200000000ULL;
+	LinearClassifier<RealVector> model;
+	trainer.train(model, data);
+	QpSolutionProperties prop = trainer.solutionProperties();
+	os << "ltrain classes=" << classes << " iters=" << prop.iterations << " stop=" << (int)prop.type
+	   << " acc=" << g17(prop.accuracy) << " value=" << g17(prop.value) << " dec=";
+	for(std::size_t j = 0; j != W.m; ++j){
+		RealVector f = model.decisionFunction()(W.probes[j]);
+		for(std::size_t c = 0; c != f.size(); ++c) os << (j + c ? "," : "") << g17(f(c));
+	}
+	os << " tdec=";
+	for(std::size_t o = 0; o != W.n; ++o){
+		RealVector f = model.decisionFunction()(W.x[o]);
+		for(std::size_t c = 0; c != f.size(); ++c) os << (o + c ? "," : "") << g17(f(c));
+	}
+	// primal objective 1/2 |w|^2 (the loss part depends on the formulation; compared through the duals)
+	RealMatrix const& w = model.decisionFunction().matrix();
+	double nrm = 0; for(std::size_t a = 0; a != w.size1(); ++a) for(std::size_t b = 0; b != w.size2(); ++b) nrm += w(a,b) * w(a,b);
+	os << " wnorm2=" << g17(nrm);
+	if(prop.type != QpAccuracyReached && type != McSvm::OVA && !(bias && classes == 2)) orc << " !oracle linear-solver-did-not-reach-accuracy";
+	return os.str() + orc.str();
+}
+
 // tables for the decomposition-level harness (c16s.cpp): F in {WWCS, ATMATS, ADMLLW, MMR}
 void c16MakeTables(std::string const& f, std::size_t c, QpSparseArray<double>& nu, QpSparseArray<double>& M){
 	LinearKernel<RealVector> kernel;
@@ -323,6 +369,8 @@ int main(int argc, char** argv){
 			std::cout << "probes m=" << W.m << "\n";
 		}else if(t[0] == "train"){
 			std::cout << doTrain(t) << std::endl;
+		}else if(t[0] == "ltrain"){
+			std::cout << doLinearTrain(t) << std::endl;
 		}else{
 			std::string out;
 			if(c16BoxOp(t, out)) std::cout << out << std::endl;
